@@ -36,6 +36,11 @@ pub enum Shape {
     /// conflict-rich: a staircase head (consumed by the cheap phases) plus L rows whose candidates collide pairwise
     /// (row k has candidate entries in columns c_k and c_{k+1}, non-candidate entries elsewhere) plus noise
     Ring { l: u8, extra: Vec<(u8, u8, u8)>, cross: Vec<(u8, u8, u8)>, head: u8 },
+    /// large and very sparse (up to 3000 x 8192; the sizes at which the search structure is worth parallelising further):
+    /// `groups` independent blocks  P_t = [u_t: 0, p_t: unit, c_t: unit],  A_t = [u_t: non-candidate, p_t: 0, c_t: unit]
+    /// (A_t loses c_t to the cheap phases and goes to the cycle-free search), then `m_extra` pseudo-random rows with
+    /// 1..per_row entries from `seed`, on n = 3 groups + n_extra columns
+    Huge { groups: u16, m_extra: u16, n_extra: u16, per_row: u8, seed: u32 },
 }
 
 #[derive(Clone, Debug, Serialize, Deserialize)]
@@ -106,6 +111,22 @@ pub(crate) fn build_entries(c: &Case, tier: Tier) -> (usize, usize, Entries) {
             }
             for (i, j, v) in extra { put(&mut e, h + (*i as usize % l), *j as usize % n, value(c.rty, *v)); }
             for (i, j, v) in cross { put(&mut e, *i as usize % m, h + 1 + (*j as usize % l), value(c.rty, *v)); }
+            (m, n, e)
+        }
+        Shape::Huge { groups, m_extra, n_extra, per_row, seed } => {
+            let k = *groups as usize % 1500;
+            let (mx, nx) = (*m_extra as usize % 400, *n_extra as usize % 3700);
+            let (m, n) = (2 * k + mx, 3 * k + nx);
+            let non_cand = match c.rty { RTy::I64 => V::I(2), RTy::Q => V::Q(1, 1), RTy::F3 => V::F(1), RTy::PolyH => V::P(vec![0, 1]) };
+            for t in 0..k {
+                put(&mut e, t, k + t, value(c.rty, 0)); put(&mut e, t, 2 * k + t, value(c.rty, 1));
+                put(&mut e, k + t, t, non_cand.clone()); put(&mut e, k + t, 2 * k + t, value(c.rty, 0));
+            }
+            if n > 0 {
+                let mut st = (*seed as u64) << 1 | 1;
+                let mut rnd = || { st = st.wrapping_mul(6364136223846793005).wrapping_add(1442695040888963407); (st >> 33) as usize };
+                for r in 0..mx { for _ in 0..(1 + rnd() % (1 + *per_row as usize % 5)) { let (j, v) = (rnd() % n, rnd() as u8); put(&mut e, 2 * k + r, j, value(c.rty, v)); } }
+            }
             (m, n, e)
         }
     }
@@ -214,18 +235,22 @@ fn check(c: &Case, m: usize, n: usize, e: &Entries, run: &Run) -> Chk<Pass> {
         let Some(v) = e.get(&(*i, *j)) else { return bad(format!("{what}: pivot ({i},{j}) is a zero entry")) };
         ensure!(v.satisfies(c.cond), "{what}: pivot entry ({i},{j}) = {:?} does not satisfy {:?}", v, c.cond);
     }
-    // triangular after permutation: position of pivot k is (k,k); Rows -> upper, Cols -> lower
-    for (k, (ik, _)) in pivs.iter().enumerate() { for (l, (_, jl)) in pivs.iter().enumerate() {
+    // triangular after permutation: position of pivot k is (k,k); Rows -> upper, Cols -> lower.  Every non-zero entry whose row
+    // and column both carry a pivot sits at (row position, column position) of the leading block
+    let row_pos: std::collections::HashMap<usize, usize> = pivs.iter().enumerate().map(|(k, p)| (p.0, k)).collect();
+    let col_pos: std::collections::HashMap<usize, usize> = pivs.iter().enumerate().map(|(k, p)| (p.1, k)).collect();
+    for ((i, j), _) in e.iter() {
+        let (Some(&k), Some(&l)) = (row_pos.get(i), col_pos.get(j)) else { continue };
         if k == l { continue }
         let below = k > l;
         if (below && !c.cols) || (!below && c.cols) {
-            ensure!(!e.contains_key(&(*ik, *jl)), "{what}: leading block not {} triangular: entry at permuted position ({k},{l}) = original ({ik},{jl}) is non-zero; pivots {:?}", if c.cols { "lower" } else { "upper" }, pivs);
+            return bad(format!("{what}: leading block not {} triangular: entry at permuted position ({k},{l}) = original ({i},{j}) is non-zero; pivots {:?}", if c.cols { "lower" } else { "upper" }, &pivs[..pivs.len().min(60)]))
         }
-    } }
+    }
     Ok(Pass::new().nt(run.par_commits >= 2 && run.retries >= 1)
         .label(format!("sched:{}", match c.sched { Sched::Free => "free", Sched::Barrier(_) => "barrier", Sched::Delay(..) => "delay", Sched::Stagger => "stagger" }))
         .label(format!("ring:{:?}", c.rty)).label_if(run.retries >= 1, "retry>=1").label_if(run.par_commits >= 2, "parallel-commits>=2")
-        .label_if(matches!(c.shape, Shape::Ring { .. }), "conflict-rich").label_if(pivs.is_empty(), "no-pivot"))
+        .label_if(matches!(c.shape, Shape::Ring { .. }), "conflict-rich").label_if(matches!(c.shape, Shape::Huge { .. }), "huge-sparse").label_if(n >= 4096 || m >= 4096, "dimension>=4096").label_if(pivs.is_empty(), "no-pivot"))
 }
 
 fn run_case(c: &Case, tier: Tier) -> Chk<Pass> {
@@ -249,7 +274,7 @@ impl Prop for C11 {
     type Case = Case;
     const ID: &'static str = "C11";
     fn rule() -> String {
-        "case = (ring in {i64, Ratio<i64>, FF<3>, Poly<'H',i64>}, sparse matrix: random (m,n up to 60 (250 thorough), 0..400 entries from units and non-units) or conflict-rich (a staircase head plus L rows whose two candidate columns collide pairwise, plus noise), pivot type Rows/Cols, condition One/AnyUnit/Weight(w), threads in {1,2,3,4,8,16}, \
+        "case = (ring in {i64, Ratio<i64>, FF<3>, Poly<'H',i64>}, sparse matrix: random (m,n up to 60 (250 thorough), 0..400 entries from units and non-units) or conflict-rich (a staircase head plus L rows whose two candidate columns collide pairwise, plus noise) or, one case in 29, huge and very sparse (up to 3400 x 8200: independent 2 x 3 blocks whose second row reaches the cycle-free search, plus pseudo-random sparse rows), pivot type Rows/Cols, condition One/AnyUnit/Weight(w), threads in {1,2,3,4,8,16}, \
          schedule strategy installed through the verif-hooks points: Free, Barrier(g) (tasks wait before the write lock until g have arrived or 1.5 ms passed), Delay(seed, max us) (pseudo-random spin per (row, point, attempt)), Stagger (a task is held before the write lock until another task has committed since its snapshot)). \
          oracle: no panic; pivots have pairwise distinct rows and columns; every pivot entry satisfies the condition (reference predicates); reading the original entries through the pivot order, the leading r x r block is upper (Rows) / lower (Cols) triangular. \
          non-trivial = the parallel phase committed >= 2 pivots and at least one validate-or-retry round failed validation (counted through the hooks)".into()
@@ -265,7 +290,7 @@ impl Prop for C11 {
         let ring = (any::<u8>(), ents(40), ents(40), any::<u8>()).prop_map(|(l, extra, cross, head)| Shape::Ring { l, extra, cross, head });
         let sched = prop_oneof![2 => Just(Sched::Free), 4 => (2u8..=16).prop_map(Sched::Barrier), 2 => (any::<u32>(), 1u16..300).prop_map(|(s, m)| Sched::Delay(s, m)), 2 => Just(Sched::Stagger)];
         let cond = prop_oneof![3 => Just(Cond::One), 3 => Just(Cond::AnyUnit), 2 => (1u8..6).prop_map(Cond::Weight)];
-        (prop::sample::select(vec![RTy::I64, RTy::I64, RTy::Q, RTy::F3, RTy::PolyH]), prop_oneof![3 => random, 4 => ring], any::<bool>(), cond, prop_oneof![1 => Just(0u8), 1 => Just(1u8), 2 => Just(3u8), 3 => Just(4u8), 3 => Just(5u8)], sched)
+        (prop::sample::select(vec![RTy::I64, RTy::I64, RTy::Q, RTy::F3, RTy::PolyH]), prop_oneof![12 => random, 16 => ring, 1 => (any::<u16>(), any::<u16>(), any::<u16>(), any::<u8>(), any::<u32>()).prop_map(|(groups, m_extra, n_extra, per_row, seed)| Shape::Huge { groups, m_extra, n_extra, per_row, seed })], any::<bool>(), cond, prop_oneof![1 => Just(0u8), 1 => Just(1u8), 2 => Just(3u8), 3 => Just(4u8), 3 => Just(5u8)], sched)
             .prop_map(|(rty, shape, cols, cond, threads, sched)| Case { rty, shape, cols, cond, threads, sched }).boxed()
     }
     fn cases(tier: Tier) -> u32 { tier.pick(12_000, 250_000) }
